@@ -336,6 +336,14 @@ impl TransportService {
         let (tx, rx) = channel(DEFAULT_CHANNEL_SIZE);
 
         let keep_alive_tracker = KeepAliveTracker::new(keep_alive_timeout);
+        #[cfg(litep2p_verif)]
+        crate::verif::note_service(
+            local_peer_id,
+            &protocol,
+            &fallback_names,
+            keep_alive_tracker.keep_alive_timeout,
+            substream_keep_alive == SubstreamKeepAlive::Yes,
+        );
 
         (
             Self {
